@@ -316,6 +316,7 @@ static const char *setarg(char *buf, size_t n, const char *s) { if (!s) return N
 #define DARG(s) setarg(c->dbuf, sizeof c->dbuf, (s))
 #define CARG(s) setarg(c->cbuf, sizeof c->cbuf, (s))
 
+static void *fifo_drain(void *p) { usleep(300000); int fd = open((const char *)p, O_RDONLY); if (fd >= 0) { char b[4096]; while (read(fd, b, sizeof b) > 0) {} close(fd); } return NULL; }
 struct thr_arg { struct ctx c; char *script; int id; };
 static void *thr_main(void *p) {
   struct thr_arg *a = p;
@@ -440,7 +441,17 @@ static int run_cmd(struct ctx *c, char **t, int nt) {
   if (!strcmp(op, "merge")) { int h = HND(1); e = econf_mergeFiles(&c->H[h], c->H[HND(2)], c->H[HND(3)]);
     fprintf(o, "{\"op\":\"merge\",\"h\":%d", h); jrc(o, e); fprintf(o, ",\"obj\":%s}\n", c->H[h] ? "true" : "false"); return 0; }
   if (!strcmp(op, "write")) { int h = HND(1); char *d = tokstr(ARG(2), NULL), *n = tokstr(ARG(3), NULL);
-    e = econf_writeFile(c->H[h], d, n); fprintf(o, "{\"op\":\"write\",\"h\":%d", h); jrc(o, e); fputs("}\n", o); free(d); free(n); return 0; }
+    e = econf_writeFile(c->H[h], d, n); fprintf(o, "{\"op\":\"write\",\"h\":%d", h); jrc(o, e);
+    /* the permission bits the written file ends up with belong to the result of the call (process umask 022 in every run) */
+    { char *wp = NULL; struct stat wst; if (!e && d && n && asprintf(&wp, "%s/%s", d, n) >= 0 && stat(wp, &wst) == 0) fprintf(o, ",\"mode\":%o", (unsigned)(wst.st_mode & 0777)); free(wp); }
+    fputs("}\n", o); free(d); free(n); return 0; }
+  /* writeslow h dir name : econf_writeFile to a name that is a FIFO nobody reads from yet - the call stays inside the opening of
+     the file for about 0.3 s (a reader thread then drains and removes the pipe); other threads' calls happen meanwhile */
+  if (!strcmp(op, "writeslow")) { int h = HND(1); char *d = tokstr(ARG(2), NULL), *n = tokstr(ARG(3), NULL); char *fp = NULL; pthread_t rt; int have = 0;
+    if (asprintf(&fp, "%s/%s", d, n) < 0) fp = NULL; mkparent(fp); unlink(fp);
+    if (fp && mkfifo(fp, 0600) == 0 && pthread_create(&rt, NULL, fifo_drain, fp) == 0) have = 1;
+    e = have ? econf_writeFile(c->H[h], d, n) : ECONF_ERROR; if (have) pthread_join(rt, NULL);
+    fprintf(o, "{\"op\":\"writeslow\",\"h\":%d", h); jrc(o, e); fputs("}\n", o); if (fp) unlink(fp); free(fp); free(d); free(n); return 0; }
   if (!strcmp(op, "free")) { int h = HND(1); econf_file *r = econf_freeFile(c->H[h]); c->H[h] = NULL;
     fprintf(o, "{\"op\":\"free\",\"h\":%d,\"ret_null\":%s}\n", h, r == NULL ? "true" : "false"); return 0; }
   if (!strcmp(op, "forget")) { c->H[HND(1)] = NULL; return 0; }
@@ -924,6 +935,7 @@ int main(int argc, char **argv) {
   static char obuf[1 << 16];
   setvbuf(stdout, obuf, _IOLBF, sizeof obuf);
   signal(SIGALRM, on_alarm);
+  umask(022);
   main_ctx.out = stdout; main_ctx.cookie = 0x5eed;
   if (getenv("DRV_ROOT")) { drv_root = getenv("DRV_ROOT"); mkdirs(drv_root); }
   if (getenv("DRV_STACK_KB")) {
